@@ -289,9 +289,10 @@ Print Assumptions C18_translated_rules_are_the_model.
    (a fresh set of seen paths per event, no other state on the extension); the class branch of _apply_recursively is
    label, guard on "__init__", synthesise, delete InitVar members, nested classes - the order of Model/C18_machine.v : process;
    Expr.is_classvar (the visitor's class-attribute label, all the extension knows of ClassVar) goes by the last name of the
-   canonical path, so every import route of ClassVar is recognised. *)
+   canonical path, so every import route of ClassVar is recognised; _dataclass_parameters skips alias members (names
+   imported in a class body), so it never asks an unloaded target for its kind (repair of C18-F11). *)
 Theorem C18_translated_skeleton_is_the_model :
   post_load_steps = [PExports; PWildcards; PEvent] /\ builtin_extension_always_loaded = true /\
-  seen_set_fresh_per_event = true /\ class_steps = [CLabel; CGuard; CInit; CPrune; CNested] /\ classvar_by_last_name = true.
+  seen_set_fresh_per_event = true /\ class_steps = [CLabel; CGuard; CInit; CPrune; CNested] /\ classvar_by_last_name = true /\ skips_alias_members = true.
 Proof. exact skeleton_is_model. Qed.
 Print Assumptions C18_translated_skeleton_is_the_model.
